@@ -325,6 +325,11 @@ def plan_session(rng, P, cfn, csvc, sfn, ssvc, transport, proto, per_method, tam
                     # TCompactProtocol carries three bits of the type: 12 arrives as 4, 13 and 77 as 5
                     c.tamper = {"type": rng.choice([1, 4, 0, 5, 77] + ([7, 6, 12, 13] if proto == "compact" else []))}
                 req["tamper"] = c.tamper
+            c.drop = False
+            if transport == "http" and not tamper and not c.unwritable and rng.random() < 0.08:
+                # fault: the server processes the request and the connection is closed before any response leaves
+                c.drop = True
+                req["drop_reply"] = True
             calls.append(c)
             reqs.append(req)
     order = list(range(len(calls)))
@@ -336,7 +341,7 @@ def plan_session(rng, P, cfn, csvc, sfn, ssvc, transport, proto, per_method, tam
     # the same calls once more, all in flight at once through the one client (several goroutines sharing it)
     served = {wire_name(m) for _, _, m in L.service_methods(p, sfn, ssvc)}
     elig = [i for i, c in enumerate(calls) if not c.m["oneway"] and not c.unwritable and c.tamper is None
-            and c.desc[0] in ("ret", "exc") and wire_name(c.m) in served]
+            and c.desc[0] in ("ret", "exc") and wire_name(c.m) in served and not getattr(c, "drop", False)]
     if proto == "json":
         # Apache Thrift's JSON reader splits NaN / Infinity tokens at a 4096-byte boundary (known finding, third party):
         # alone such a call fails with a recognisable PROTOCOL_ERROR; in a burst the undecodable request makes the
@@ -698,6 +703,16 @@ def _run_program(ctx, prog, lb, plan, stats, judge_cases, judge_meta, burst_case
             # --- the caller's view
             exp = expected_client(P, c, has)
             got = observed_client(P, c, o["client"])
+            if getattr(c, "drop", False):
+                # the reply was lost with the connection: the handler ran ONCE (checked above) and the caller is told of a failure
+                if got[0] in ("ret", "exc"):
+                    problems.append("the reply was lost with the connection, yet the caller got %s" % (str(got)[:200],))
+                stats["kind/reply-dropped"] += 1
+                if problems:
+                    ctx.violation("C03: %s over %s/%s: %s" % (m["name"], transport, proto, "; ".join(problems)), rep)
+                else:
+                    stats["oracle_ok"] += 1
+                continue
             if exp == ("refused",):
                 if got[0] not in ("protocol", "error"):
                     problems.append("arguments the generated Write cannot emit: caller got %s" % (str(got)[:200],))
